@@ -455,7 +455,36 @@ func schedScenarios() []scenario {
 			return fmt.Sprint(r, i, len(b))
 		}}
 	}
+	textp := func(x *Dec) thread {
+		// explicit precisions smaller than the digit count: the formatter rounds into a temporary
+		return thread{"Text(prec)", func() string {
+			return x.Text('e', 3) + " " + x.Text('f', 2) + " " + x.Text('g', 7) + " " + string(x.Append(nil, 'E', 25))
+		}}
+	}
+	sprintf := func(x *Dec) thread {
+		return thread{"Sprintf", func() string { return fmt.Sprintf("%.4g|%12.2f|%+.30e|%v", x, x, x, x) }}
+	}
+	f32rat := func(x *Dec) thread {
+		return thread{"Float32/Rat/Int64", func() string {
+			f, a := x.Float32()
+			r, b := x.Rat(nil)
+			i, c := x.Int64()
+			return fmt.Sprint(f, a, r, b, i, c, x.IsInt())
+		}}
+	}
+	marsh := func(x *Dec) thread {
+		return thread{"Marshal", func() string {
+			t, _ := x.MarshalText()
+			g, _ := x.GobEncode()
+			return fmt.Sprintf("%s %x", t, g)
+		}}
+	}
 	return []scenario{
+		{"Text(prec)||Text(prec)", mk(func(x, y, w *Dec) []thread { return []thread{textp(x), textp(w)} }), thr},
+		{"Text(prec)||Sprintf", mk(func(x, y, w *Dec) []thread { return []thread{textp(y), sprintf(y)} }), thr},
+		{"Sprintf||Quo", mk(func(x, y, w *Dec) []thread { return []thread{sprintf(x), quo(x, y, 12, ToNearestEven)} }), thr},
+		{"Float32/Rat||Float32/Rat", mk(func(x, y, w *Dec) []thread { return []thread{f32rat(y), f32rat(w)} }), thr},
+		{"Marshal||Text(prec)", mk(func(x, y, w *Dec) []thread { return []thread{marsh(w), textp(w)} }), thr},
 		{"FMA||Quo", mk(func(x, y, w *Dec) []thread { return []thread{fma(x, w, y, 60), quo(w, y, 30, ToNearestEven)} }), thr},
 		{"Rat/Int/Gob||Mul(x,x)", mk(func(x, y, w *Dec) []thread { return []thread{conv(x), mul(x, x, 150)} }), thr},
 		{"Text||Sqrt", mk(func(x, y, w *Dec) []thread { return []thread{text(w), sqrt(w, 30, ToNearestEven)} }), thr},
@@ -503,7 +532,7 @@ func schedLayers(tier string) []Layer {
 	return []Layer{{
 		Name:   "Z1-schedules",
 		Units:  len(units),
-		Bounds: "11 scenarios of 2–3 goroutines, each one operation with its own receiver on shared 3–5-word operands (thresholds 2/1/4 so that Karatsuba, squaring and long division use pooled scratch buffers); level A: scheduling points before and after every pool Get/Put, all interleavings for 2 threads (preemption bound 6; 3 threads: 3) × pool-answer deviations <= 2; level B: additionally a point before every arithmetic kernel call, preemption bound 2 (quick) / 3 (thorough) for 2 and 3 threads, pool deviations <= 1; adversarial pool (garbage on Get, poison on Put, ownership tracking); oracle: each thread's result == its sequential result, operands unchanged, no panic, pool protocol respected",
+		Bounds: "16 scenarios of 2–3 goroutines, each one operation with its own receiver on shared 3–5-word operands (thresholds 2/1/4 so that Karatsuba, squaring and long division use pooled scratch buffers); level A: scheduling points before and after every pool Get/Put, all interleavings for 2 threads (preemption bound 6; 3 threads: 3) × pool-answer deviations <= 2; level B: additionally a point before every arithmetic kernel call, preemption bound 2 (quick) / 3 (thorough) for 2 and 3 threads, pool deviations <= 1; adversarial pool (garbage on Get, poison on Put, ownership tracking); oracle: each thread's result == its sequential result, operands unchanged, no panic, pool protocol respected",
 		Run: func(c *Ctx, u int) {
 			if !poolSeamsPresent() {
 				fmt.Fprintln(os.Stderr, "HARNESS-ERROR: pool seams not present in this build (overlay missing)")
@@ -593,7 +622,7 @@ func racePass(args []string) int {
 func init() {
 	specials["racepass"] = racePass
 	register(&Property{
-		ID: "C18", Level: "model_checking",
+		ID: "C18", OwnPool: true, Level: "model_checking",
 		Rule: "an evaluation is one complete execution of a multi-goroutine scenario under one schedule (sequence of scheduling and pool-answer choices), or one operation on write-protected operands; schedules are distinct by construction (DFS over choice sequences); every execution is compared with the sequential results",
 		Assumptions: []string{
 			"the cooperative scheduler interleaves at pool operations and kernel calls; a thread's private computation between two such points is treated as atomic (sequential consistency at kernel granularity)",
